@@ -33,7 +33,7 @@ CHECKS = [
              "requests, re-requests, releases by message and API and save/load cycles, for five pre-filled tables, plus a sweep of a "
              "request through every one of the 155 relay addresses of level 1..3 with empty / nearly full / full parents, and a "
              "sweep of a second request arriving while the master waits for the NETWORK_ACK of a routed reply, are enumerated; Hypothesis draws ids 1..255 and histories to 14 events, and tables of 0..255 entries for persistence; the "
-             "lease-table invariants of the statement are evaluated on dhcp_dict after every event",
+             "lease-table invariants of the statement are evaluated on dhcp_dict after every event, and every copy of a reply on air must agree",
      "design_ref": "4/C16", "note": SIM_NOTE + "; weak liveness (a request with a free slot is answered) is assumed as part of 'a released address becomes available again'",
      "technique": "model-based property testing: bounded-exhaustive event words + Hypothesis histories with lease-table invariants checked after every event"},
     {"property_id": "C14", "level": "exploration",
@@ -43,7 +43,8 @@ CHECKS = [
              "models, pre-histories of routed writes, relays with full queues, relays on every level 0..4 and a member's own write racing the "
              "multicast; after quiescence all "
              "queues are compared with the reference set of level members, the air log is checked for the level address, single "
-             "attempts, absence of ACK packets, relay re-broadcasts and the set of levels a relayed message may reach; schedules are sampled",
+             "attempts, absence of ACK packets, relay re-broadcasts and the set of levels a relayed message may reach; an enumerated frame-by-frame "
+             "scenario injects plain frames and fragments of longer multicasts into a level 1..3 relay (each re-broadcast once, byte for byte, to the next level); schedules are sampled",
      "design_ref": "4/C14", "note": SIM_NOTE + "; a receiver whose 3-level RX FIFO was overrun by an unacknowledged fragment burst is "
      "not judged for reception (counted); relay multiplicity scoped as in DESIGN 4/C14",
      "technique": "enumeration of sender-class x level + Hypothesis-generated populated topologies on the multi-node simulation, set-equality oracle over all queues and the air log"},
@@ -91,7 +92,7 @@ CHECKS = [
      "technique": "property-based testing: boundary enumeration + Hypothesis histories with an independent BLE reference decoder as oracle"},
     {"property_id": "C19", "level": "exploration",
      "text": "FakeBLE->FakeBLE round trips over the simulated air on all three channels for generated name/PA/service-data "
-             "combinations, packets from the independent BLE encoder, every single and (thorough: every; quick: 1/8 of the) double "
+             "combinations (show_pa_level as bool or truthy int, URL power set before or after the buffer was first read), packets from the independent BLE encoder, every single and (thorough: every; quick: 1/8 of the) double "
              "bit flip of valid packets, CRC-valid packets with adversarial AD areas, random 32-byte payloads, and an "
              "atheris/libFuzzer campaign with the oracle in the target; the reference parser decides which payloads are consistent "
              "packets, decoded values are compared with what was advertised, available() must never raise, read() order is checked, and "
@@ -192,7 +193,7 @@ CHECKS = [
      "technique": "fault-sequence enumeration + Hypothesis-generated call histories against the simulator's ground-truth air log"},
     {"property_id": "C12", "level": "exploration",
      "text": "model-based: every op word to the stated depth over the op alphabet (enqueue of five frames incl. equal-key variants, a complete fragmented message, dequeue, peek, "
-             "capacity changes; exhaustive), Hypothesis op lists to length "
+             "capacity changes; exhaustive), every non-fragment message type 0..255 through both queue classes, Hypothesis op lists to length "
              "40, and histories produced by a Hypothesis rule-based state machine whose rules step the reference queue (state-aware "
              "preconditions), all run in lock-step against an independent reference queue, with a second queue object reassembling a message of "
              "its own in the same program; absence beyond the explored histories "
